@@ -300,7 +300,7 @@ def get_double(value: FloatArgType, xsd_version: str | None = None) -> float:
                 return math.nan  # for NaN use the predefined instance to keep identity
         elif value.lower() in INVALID_NUMERIC or DOUBLE_LEXICAL_PATTERN.fullmatch(value) is None:
             raise ValueError(f'invalid value {value!r} for xs:double/xs:float')
-    elif math.isnan(value):
+    elif not isinstance(value, int) and math.isnan(value):
         return math.nan
 
     try:
